@@ -10,3 +10,24 @@ Print Assumptions C07_lb_is_lower_bound.
 Theorem C07_lb_zero_when_unlimited : stmt_lb_zero_when_unlimited.
 Proof. exact lb_zero_when_unlimited. Qed.
 Print Assumptions C07_lb_zero_when_unlimited.
+
+(** On the functional model: a schedule whose formations carry min(required, limit) vehicles on every departure segment
+    has exactly the lower bound of unserved passengers; steps that improve the objective in the documented order never
+    raise the unserved passengers; the stages after the search keep them; hence a covered start schedule stays at the
+    lower bound through the whole pipeline — for every network loaded from a valid instance with non-negative limits
+    (JSON limits are unsigned; with a negative limit in the model's Z-typed instance the statements are refuted). *)
+From RS Require Import LoadStmts Schedule SchedInv SchedStruct PipelineSched CoverStmts CoverFacts.
+Theorem C07_model_lower_bound : forall i perm nw,
+  valid_instance_b i = true -> inst_limits_nonneg_b i = true -> load i perm = Ok nw ->
+  stmt_covered_is_lower_bound nw /\ stmt_unserved_at_least_lower_bound nw /\ stmt_pipeline_keeps_lower_bound nw.
+Proof. exact cover_statements_loaded. Qed.
+Print Assumptions C07_model_lower_bound.
+Theorem C07_improving_steps_never_raise_unserved : forall nw, stmt_improving_path_unserved nw.
+Proof. exact improving_path_unserved. Qed.
+Print Assumptions C07_improving_steps_never_raise_unserved.
+Theorem C07_final_stages_keep_unserved : forall nw, stmt_final_stages_keep_unserved nw.
+Proof. exact final_stages_keep_unserved. Qed.
+Print Assumptions C07_final_stages_keep_unserved.
+Theorem C07_negative_limit_refutes : ~ (forall nw, stmt_covered_is_lower_bound nw).
+Proof. exact covered_is_lower_bound_refuted. Qed.
+Print Assumptions C07_negative_limit_refutes.
